@@ -383,7 +383,7 @@ MANIFEST_TEXT = {
         "level_text": "seeded exploration of query/usage histories of interpolated quantities against generating functions, knot values "
                       "and fresh twins; evidence, not proof",
         "design_ref": "DESIGN.md section 5 C10",
-        "level_note": "clauses about noise / sigma splines are not observable through the API and not decided",
+        "level_note": "the interpolated values of the noise splines are not observable through the API and not decided; sigma splines are decided at the supplied frequencies (twin solved one frequency at a time)",
         "technique": "deterministic simulation: history-dependence probes with fresh twins, range-violation injection",
     },
     "C07": {
